@@ -121,7 +121,15 @@ func runProp(t *testing.T, p propDef) {
 		case f.Status == "open":
 			c.KnownGone(f.ID)
 		case f.Status == "fixed" && len(ds) > 0:
-			c.Violate("regression-"+f.ID, ds[0].Kind, "fixed finding "+f.ID+" is back: "+ds[0].Detail, rf.Case)
+			// discrepancies that carry the signature of a finding that is still open do not
+			// count against a fixed one
+			for _, d := range ds {
+				if d.KF != "" && evid.Open(d.KF) {
+					continue
+				}
+				c.Violate("regression-"+f.ID, d.Kind, "fixed finding "+f.ID+" is back: "+d.Detail, rf.Case)
+				break
+			}
 		}
 	}
 
